@@ -367,6 +367,75 @@ func instantiate(t *rapid.T, p *model.Type, o gen.TypeOpt) *model.Type {
 	return p.Subst1(s)
 }
 
+// weaken replaces some list element types by ⊥ and some map types by map[⊥,⊥]
+// (what an empty literal contributes): the result is covered by ty.
+func weaken(t *rapid.T, ty *model.Type) *model.Type {
+	switch ty.K {
+	case model.TList:
+		if rapid.Bool().Draw(t, "bot-el") {
+			return model.List(model.Bot)
+		}
+		return model.List(weaken(t, ty.El()))
+	case model.TMap:
+		if rapid.Bool().Draw(t, "bot-map") {
+			return model.Map(model.Bot, model.Bot)
+		}
+		return model.Map(ty.Key(), weaken(t, ty.Val()))
+	case model.TMaybe:
+		return model.Maybe(weaken(t, ty.El()))
+	case model.TObj:
+		fs := make([]model.Field, len(ty.F))
+		for i, f := range ty.F {
+			fs[i] = model.Field{Name: f.Name, T: weaken(t, f.T)}
+		}
+		return model.Obj(fs...)
+	}
+	return ty
+}
+
+// instantiateVarying is instantiate, except that every single occurrence of a
+// variable independently receives either the variable's instance or a
+// ⊥-weakening of it: the occurrences of one variable then meet types that
+// unify pairwise by the ⊥ rule without being equal.
+func instantiateVarying(t *rapid.T, p *model.Type, o gen.TypeOpt) *model.Type {
+	s := map[string]*model.Type{}
+	keyVars := p.KeyVars()
+	for _, v := range p.FreeVars() {
+		if keyVars[v] {
+			s[v] = gen.Prim(t)
+		} else {
+			s[v] = gen.Type(t, o)
+		}
+	}
+	var rb func(x *model.Type) *model.Type
+	rb = func(x *model.Type) *model.Type {
+		if x.K == model.TVar {
+			if in, okk := s[x.N]; okk {
+				if !keyVars[x.N] && rapid.Bool().Draw(t, "weaken-occurrence") {
+					return weaken(t, in)
+				}
+				return in
+			}
+			return x
+		}
+		c := *x
+		if len(x.A) > 0 {
+			c.A = make([]*model.Type, len(x.A))
+			for i, a := range x.A {
+				c.A[i] = rb(a)
+			}
+		}
+		if len(x.F) > 0 {
+			c.F = make([]model.Field, len(x.F))
+			for i, f := range x.F {
+				c.F[i] = model.Field{Name: f.Name, T: rb(f.T)}
+			}
+		}
+		return &c
+	}
+	return rb(p)
+}
+
 func genUnifyCase(t *rapid.T) *UnifyCase {
 	depth := 3
 	if Tier == "thorough" {
@@ -408,7 +477,12 @@ func genUnifyCase(t *rapid.T) *UnifyCase {
 		if bot {
 			o = groundBot
 		}
-		c.Y = gen.PermuteType(t, instantiate(t, c.X, o))
+		if bot && rapid.Bool().Draw(t, "varying") {
+			// a container-heavy instance weakened per occurrence
+			c.Y = gen.PermuteType(t, instantiateVarying(t, c.X, gen.TypeOpt{Depth: 2, Maybe: true}))
+		} else {
+			c.Y = gen.PermuteType(t, instantiate(t, c.X, o))
+		}
 		if rapid.IntRange(0, 2).Draw(t, "break") == 0 {
 			// break one argument
 			i := rapid.IntRange(0, n-1).Draw(t, "bi")
